@@ -4,12 +4,22 @@ import glob, hashlib, json, os, shutil, time
 import vlib
 from vlib import VERIF, RUN, CACHE
 
-# (cfg, tla, timeout seconds, expected to complete)
+# (cfg, tla, timeout seconds, kind)   kind: "complete" = the bounded instance must be explored completely;
+# "box" = time-boxed breadth-first search (every behaviour up to the depth reached); "probe" = the cfg checks
+# the NEGATION of the situation its family is about and must report it violated (non-vacuity of the family)
 CONFIGS = {
-    "quick": [("MC2_tiny_sync.cfg", "MC2.tla", 240, True), ("MC2_tiny_async.cfg", "MC2.tla", 300, True)],
-    "thorough": [("MC2_tiny_sync.cfg", "MC2.tla", 600, True), ("MC2_tiny_async.cfg", "MC2.tla", 600, True),
-                 ("MC2_tiny_crash.cfg", "MC2.tla", 900, True),
-                 ("MC2_sync.cfg", "MC2.tla", 600, False), ("MC3_sync.cfg", "MC3.tla", 600, False), ("MC3_async.cfg", "MC3.tla", 600, False)],
+    "quick": [("MC2_tiny_sync.cfg", "MC2.tla", 240, "complete"), ("MC2_tiny_async.cfg", "MC2.tla", 300, "complete"),
+              ("MCF_xfer.cfg", "MCF.tla", 300, "complete"), ("MCF_flow.cfg", "MCF.tla", 300, "complete"),
+              ("MCF_xfer_probe.cfg", "MCF.tla", 300, "probe"), ("MCF_flow_probe.cfg", "MCF.tla", 300, "probe")],
+    "thorough": [("MC2_tiny_sync.cfg", "MC2.tla", 600, "complete"), ("MC2_tiny_async.cfg", "MC2.tla", 600, "complete"),
+                 ("MC2_tiny_crash.cfg", "MC2.tla", 900, "complete"),
+                 ("MCF_xfer.cfg", "MCF.tla", 600, "complete"), ("MCF_flow.cfg", "MCF.tla", 600, "complete"),
+                 ("MCF_reads1.cfg", "MCF.tla", 900, "complete"), ("MCF_tick.cfg", "MCF.tla", 1200, "complete"),
+                 ("MCF_xfer_probe.cfg", "MCF.tla", 300, "probe"), ("MCF_flow_probe.cfg", "MCF.tla", 300, "probe"),
+                 ("MCF_reads_probe.cfg", "MCF.tla", 300, "probe"), ("MCF_tick_probe.cfg", "MCF.tla", 300, "probe"),
+                 ("MCF_snap_probe.cfg", "MCF.tla", 900, "probe"),
+                 ("MC2_sync.cfg", "MC2.tla", 400, "box"), ("MC3_sync.cfg", "MC3.tla", 400, "box"), ("MC3_async.cfg", "MC3.tla", 400, "box"),
+                 ("MCF_reads.cfg", "MCF.tla", 400, "box"), ("MCF_conf.cfg", "MCF.tla", 400, "box"), ("MCF_snap.cfg", "MCF.tla", 400, "box")],
 }
 
 
@@ -34,17 +44,25 @@ def run(pid, tier, seed):
         os.makedirs(workdir)
         runs = []
         try:
-            for cfg, tla, tmo, complete in CONFIGS[tier]:
+            for cfg, tla, tmo, kind in CONFIGS[tier]:
                 r = vlib.run_tlc_model(cfg, tla, workdir, workers=max(2, vlib.NCPU // 2), timeout=tmo, heap="12g")
                 r.pop("out", None)
-                r["expected_complete"] = complete
+                r["kind"] = kind
+                r["expected_complete"] = kind == "complete"
+                if kind == "probe":
+                    r["probe_reached"] = bool(r["violated"])
                 runs.append(r)
         finally:
             shutil.rmtree(workdir, ignore_errors=True)
+        real = [r for r in runs if r["kind"] != "probe"]
         res = {"runs": runs,
-               "states": sum(r["distinct"] for r in runs), "transitions": sum(r["generated"] for r in runs),
-               "exhaustive": all(r["complete"] for r in runs),
-               "spec_defects": [(r["cfg"], v) for r in runs for v in r["violated"]]}
-        if all(r["complete"] or not r["expected_complete"] for r in runs):
+               "states": sum(r["distinct"] for r in real), "transitions": sum(r["generated"] for r in real),
+               "exhaustive": all(r["complete"] for r in real if r["kind"] == "complete"),
+               "spec_defects": [(r["cfg"], v) for r in real for v in r["violated"]] +
+                               [(r["cfg"], "probe not reached: the family instance is vacuous") for r in runs
+                                if r["kind"] == "probe" and not r["probe_reached"] and not r["timed_out"]] +
+                               [(r["cfg"], "TLC evaluation error: " + r["error_tail"][-300:]) for r in runs if r.get("error_tail")],
+               "incomplete": [r["cfg"] for r in real if r["kind"] == "complete" and not r["complete"]]}
+        if not res["incomplete"]:
             json.dump(res, open(rfile, "w"))
         return res
